@@ -16,7 +16,7 @@ pub fn def() -> PropDef {
     PropDef {
         id: "C04",
         level: "fault_enumeration",
-        profiles: &["checked"],
+        profiles: &["checked", "fast"],
         abort_is_violation: false,
         rule: "for each generated (parser, literal type, config, input (valid, layout-rendered, crate-written, \
                mutated, fixtures, arbitrary; <= 400 bytes), feed, error kind) EVERY fault offset k in 0..=len is \
